@@ -51,18 +51,33 @@ Definition replay_step (s : rlog) (g : N) (r : rreq) : rlog * ans :=
   | (g', r', a) :: rest => if N.eqb g g' && rreq_eqb r r' then (rest, a) else ([], desync)
   end.
 
+Definition cancelled_err : N := 7%N.
+Definition r_memo_run_c :=
+  @memo_run_c rlog N rw rq N N (ckey N) cq_is_exist key_cur (ckey_eqb N.eqb) replay_step cancelled_err.
 Definition r_memo_run :=
   @memo_run rlog N rw rq N N (ckey N) cq_is_exist key_cur (ckey_eqb N.eqb) replay_step.
 
-(* one observed history: operations, the answers the real memoizer gave, the calls that reached the inner store *)
-Definition rcase := (list (@hop N rw rq) * list ans * rlog)%type.
+(* one observed history: operations (incl. lookups cancelled after k elements), the answers the real memoizer gave,
+   whether the history ended with a forwarded lookup left blocked, the calls that reached the inner store *)
+Definition rchop := @chop N rw rq.
+Definition rcase := (list rchop * list ans * bool * rlog)%type.
+
+(* errors are compared as a class: the harness maps every error to 1, the model's "context cancelled" included *)
+Definition err_class (a : ans) : ans :=
+  match a with
+  | AList l (Some _) => AList l (Some 1%N)
+  | ABool b (Some _) => ABool b (Some 1%N)
+  | AAck (Some _) => AAck (Some 1%N)
+  | _ => a
+  end.
 
 Definition r_agrees (c : rcase) : bool :=
   match c with
-  | (ops, obs, lg) =>
-      match r_memo_run (mkM lg []) ops with
-      | (st, out) =>
-          list_eqb ans_eqb out obs && match m_inner st with [] => true | _ => false end
+  | (ops, obs, leak, lg) =>
+      match r_memo_run_c (mkM lg []) ops with
+      | (st, out, lk) =>
+          list_eqb ans_eqb (map err_class out) obs && Bool.eqb lk leak &&
+          match m_inner st with [] => true | _ => false end
       end
   end.
 
@@ -75,8 +90,8 @@ Fixpoint mismatches_from {A : Type} (f : A -> bool) (i : N) (l : list A) : list 
 Definition r_mismatches (l : list rcase) : list N := mismatches_from r_agrees 0 l.
 
 (* what the model returns on a case (for diagnostics) *)
-Definition r_model (c : rcase) : list ans :=
-  match c with (ops, _, lg) => snd (r_memo_run (mkM lg []) ops) end.
+Definition r_model (c : rcase) : list ans * bool :=
+  match c with (ops, _, _, lg) => let '(_, out, lk) := r_memo_run_c (mkM lg []) ops in (out, lk) end.
 
 (* LookupOptions.String(): observed text vs options_key; and the renderings are well formed (domain of C19_offset) *)
 Definition lo_agrees (p : lopts * str) : bool := str_eqb (options_key (fst p)) (snd p) && lo_wf (fst p).
@@ -154,12 +169,13 @@ Definition aB (b : bool) (e : option N) : ans := ABool b e.
 Definition aK (e : option N) : ans := AAck e.
 Definition e0 : option N := None.
 Definition e1 : option N := Some 1%N.
-Definition rO (g : N) : @hop N rw rq := HOpen g.
-Definition rR (h : N) (q : rq) : @hop N rw rq := HDo (N.to_nat h) (Read q).
-Definition rWr (h : N) (k : N) (ids : list N) : @hop N rw rq := HDo (N.to_nat h) (Write (RW k ids)).
+Definition rO (g : N) : rchop := COpen g.
+Definition rR (h : N) (q : rq) : rchop := CDo (N.to_nat h) (CPlain (Read q)).
+Definition rC (h : N) (q : rq) (k : N) : rchop := CDo (N.to_nat h) (CCancel q (N.to_nat k)).
+Definition rWr (h : N) (k : N) (ids : list N) : rchop := CDo (N.to_nat h) (CPlain (Write (RW k ids))).
 Definition lR (g : N) (q : rq) (a : ans) : N * rreq * ans := (g, Read q, a).
 Definition lW (g : N) (k : N) (ids : list N) (a : ans) : N * rreq * ans := (g, Write (RW k ids), a).
-Definition mkRC (ops : list (@hop N rw rq)) (obs : list ans) (lg : rlog) : rcase := (ops, obs, lg).
+Definition mkRC (ops : list rchop) (obs : list ans) (leak : bool) (lg : rlog) : rcase := (ops, obs, leak, lg).
 Definition tO : thop := HOpen 0%N.
 Definition tD (h : N) (r : treq) : thop := HDo (N.to_nat h) r.
 Definition tAdd (l : list N) : treq := Write (TAdd l).
